@@ -78,7 +78,9 @@ def run(tier, v):
                     bad.append("lock-regressed")
         for b in bad:
             signame = {2: "SIGINT", 15: "SIGTERM"}.get(int(x.plan[0][1].split(":")[1]), "?") if x.plan and x.plan[0][1].startswith("sig") else "?"
-            extra = "+io-fault" if len(x.plan) > 1 else ""
+            extra = "+io-fault" if any(a.startswith("fail") for _, a in x.plan) else ""
+            if len([a for _, a in x.plan if a.startswith("sig")]) == 2:
+                signame += "+then-" + {2: "SIGINT", 15: "SIGTERM"}.get(int(x.plan[1][1].split(":")[1]), "?")
             v.violation("%s:%s:%s%s" % (b, mode, signame, extra),
                         {"scenario": sc.name, "mode": mode, "plan": fsx.plan_str(x.plan), "placement": sig, "terminated": x.terminated(),
                          "post_check_exit": x.post_check_exit, "lock": x.lock, "max_id_in_tree": max_id(x.src)},
@@ -97,6 +99,15 @@ def run(tier, v):
             if len(v.coverage["samples"]) < 3:
                 v.sample({"scenario": sc.name, "mode": "check" if check else "edit",
                           "signal_points": ["%d:%s %s" % (o.k, o.op, o.path) for o in base.trace if o.k >= first_opendir(base)][:50]})
+    # a second signal while the first is being honoured (an impatient second Ctrl-C, a supervisor's TERM after the user's INT)
+    two = ["S2", "S9"] if tier != "thorough" else ["S1", "S2", "S3", "S4", "S8", "S9", "S9b"]
+    for check in (False, True):
+        for n in two:
+            sc = scenarios.ALL[n](check=check)
+            base, nx, capped = ex.explore(sc, {"sigb"}, 2, oracle, opt=opt, second_menu={"sigb"},
+                                          op_filter=lambda o, d, x: o.k >= first_opendir(x))
+            v.subspace("%s/%s: two signals - {SIGINT,SIGTERM} before every operation from opendir(source_dir) on, then {SIGINT,SIGTERM} before every "
+                       "later operation" % (sc.name, "check" if check else "edit"), nx, exhaustive=not capped)
     ex.close()
     v.coverage["rule"] = ("one evaluation = one run of the real binary with SIGINT or SIGTERM raised synchronously before/after one interposed "
                           "operation (stdout writes included); distinct = distinct (scenario, mode, termination, follow-up check status, lock, tree)")
